@@ -86,6 +86,8 @@ def check(ctx):
         "transactional context manager (`with conn:` inside _xh_sqlite_get_conn)",
         floor=8,
     )
+    ctx.rule("R7", "a history file is replaced only by content built from a successful read of it (or on evidence that there is nothing to lose: the file is missing or its content does not parse): no handler that catches a failing file-system call on the read side (OSError family, FileNotFoundError excepted, or a catch-all) leads on to os.replace - an EMFILE / EIO / EACCES while opening the old file must not turn into 'start from an empty history'", floor=3)
+    ctx.rule("R6", "SQLite backend: saved rows are changed by row-level statements only (INSERT / UPDATE / DELETE, which Python's sqlite3 wraps in the connection's transaction); no statement drops, renames or re-creates the history table or its index - sqlite3 does not open its implicit transaction for schema statements, each commits by itself, and a kill between two of them leaves a database without the saved commands", floor=15)
     ctx.rule("R5", "history files are written only through buffered file objects: a short write raises (or is retried), it is never silently accepted before the rename", floor=4)
     mod = ctx.repo.module(JSON)
     for q in LISTED:
@@ -402,6 +404,8 @@ def check(ctx):
                 )
     del progress
 
+    _sqlite_row_level_only(ctx)
+    _replace_needs_successful_read(ctx)
     # ------------------------------------------------------------------ R5
     # "a failed write never reaches os.replace" (R2) relies on the write *raising*.  That is what the buffered
     # layers do: BufferedWriter/TextIOWrapper loop until everything is written and raise ENOSPC/EFBIG.  A raw,
@@ -427,6 +431,116 @@ def check(ctx):
     if n5 < 4:
         raise AnalysisError(f"{JSON}: only {n5} writer constructions found")
 
+
+
+def _sqlite_row_level_only(ctx):
+    import re as _re
+
+    sm = ctx.repo.module(SQLITE)
+    BAD = (
+        (r"\bDROP\s+TABLE\b", "drops a table"),
+        (r"\bALTER\s+TABLE\b[^;]*\bRENAME\b", "renames a table / column"),
+        (r"\bDROP\s+INDEX\b", "drops an index"),
+        (r"\bCREATE\s+(?:TEMP\w*\s+)?TABLE\b(?!\s+IF\s+NOT\s+EXISTS)", "creates a table unconditionally"),
+        (r"\bREPLACE\s+INTO\b|\bINSERT\s+OR\s+REPLACE\b", "replaces rows wholesale"),
+        (r"\bPRAGMA\s+(?:journal_mode\s*=\s*(?:OFF|MEMORY)|synchronous\s*=\s*(?:OFF|0))", "switches journalling / syncing off"),
+    )
+
+    def text_of(e):
+        return " ".join(n_.value for n_ in ast.walk(e) if isinstance(n_, ast.Constant) and isinstance(n_.value, str))
+
+    n = 0
+    for q, fn in sm.functions():
+        defs = None
+        for c in calls_in(fn):
+            if not (isinstance(c.func, ast.Attribute) and c.func.attr in ("execute", "executemany", "executescript") and c.args):
+                continue
+            a0 = c.args[0]
+            txt = text_of(a0)
+            if isinstance(a0, ast.Name):
+                defs = defs or df.all_defs(fn)
+                seen_, todo = set(), [a0.id]
+                while todo:
+                    nm = todo.pop()
+                    if nm in seen_:
+                        continue
+                    seen_.add(nm)
+                    for d in defs.get(nm, []):
+                        if d.value is not None:
+                            txt += " " + text_of(d.value)
+                            todo += [x.id for x in ast.walk(d.value) if isinstance(x, ast.Name)]
+                    # sql += "..." pieces
+                    for a in walk_local(fn):
+                        if isinstance(a, ast.AugAssign) and isinstance(a.target, ast.Name) and a.target.id == nm:
+                            txt += " " + text_of(a.value)
+            n += 1
+            hits = [why for rx, why in BAD if _re.search(rx, txt, _re.I)]
+            if c.func.attr == "executescript":
+                hits.append("executescript() commits the pending transaction first")
+            ctx.ob("R6", f"{SQLITE}:{q}", f"`{short(c, 50)}` is a row-level statement (or an idempotent IF NOT EXISTS creation / ADD COLUMN migration)", not hits, key=f"{q}|schema-statement|{';'.join(hits)}", where=loc(c), detail="; ".join(hits) if hits else None)
+    if n == 0:
+        raise AnchorMissing(f"{SQLITE}: no execute() call")
+
+
+OSERROR_FAMILY = {"OSError", "IOError", "EnvironmentError", "Exception", "BaseException", "PermissionError", "IsADirectoryError", "NotADirectoryError", "BlockingIOError", "InterruptedError", "TimeoutError", "ConnectionError"}
+
+
+def _replace_needs_successful_read(ctx):
+    jm = ctx.repo.module(JSON)
+    n = 0
+    done = set()  # a handler is judged once (it shows up again in the expanded view of every caller)
+    ranges = [(f_.lineno, f_.end_lineno or f_.lineno, q_) for q_, f_ in jm.functions()]
+
+    def home(line, default):
+        best = None
+        for lo, hi, q_ in ranges:
+            if lo <= line <= hi and (best is None or lo >= best[0]):
+                best = (lo, q_)
+        return best[1] if best else default
+
+    # innermost functions first, so that a handler is judged in the smallest function that also holds the rename
+    for q, fn0 in sorted(jm.functions(), key=lambda it: (it[1].end_lineno or 0) - it[1].lineno):
+        if not any(call_name(c) in ("os.replace", "os.rename", "shutil.move") for c in calls_in(fn0)):
+            # the publish step may sit in a helper: look at the expanded view as well
+            fn = flat(ctx, fn0, 2)
+            if not any(call_name(c) in ("os.replace", "os.rename", "shutil.move") for c in calls_in(fn)):
+                continue
+        else:
+            fn = flat(ctx, fn0, 2)
+        cfg = None
+        for t in walk_local(fn):
+            if not isinstance(t, ast.Try):
+                continue
+            reads = [c for b_ in t.body for c in calls_in(b_) if (call_name(c) in ("open", "io.open") and not is_write_mode(open_mode(c) or "r")) or (call_name(c) or "").endswith("LazyJSON")]
+            if not reads:
+                continue
+            for h in t.handlers:
+                if h.lineno in done:
+                    continue
+                done.add(h.lineno)
+                q = home(h.lineno, q)
+                names = set()
+                if h.type is None:
+                    names.add("BaseException")
+                else:
+                    for x in ast.walk(h.type):
+                        if isinstance(x, ast.Name):
+                            names.add(x.id)
+                        elif isinstance(x, ast.Attribute):
+                            names.add(x.attr)
+                n += 1
+                fam = sorted(names & OSERROR_FAMILY)
+                if not fam:
+                    ctx.ob("R7", f"{JSON}:{q}", f"`except {unparse(h.type) if h.type is not None else ''}` around the read of the old file catches no failing file-system call (missing / unparsable content only)", True, key=f"{q}|read-failure-becomes-empty|{'+'.join(sorted(names))}", where=loc(h))
+                    continue
+                cfg = cfg or CFG(fn)
+                starts = [nd for b_ in h.body for nd in cfg.nodes_of(b_)] or cfg.nodes_of(h)
+                pubs = [nd for nd in cfg.nodes if nd.kind == "stmt" and any(call_name(c) in ("os.replace", "os.rename", "shutil.move") for c in calls_in(nd.ast))]
+                seen = cfg.reach(starts, stop=lambda m: m.kind in ("for", "while"), include_starts=True)
+                hit = [p_ for p_ in pubs if p_ in seen]
+                ctx.ob("R7", f"{JSON}:{q}", f"`except {unparse(h.type) if h.type is not None else ''}` around the read of the old file ({', '.join(fam)}: a failing file-system call) does not lead on to the rename that replaces the file", not hit, key=f"{q}|read-failure-becomes-empty|{'+'.join(fam)}", where=loc(h), path=cfg.fmt_path(cfg.path_to(seen, hit[0])) if hit else None)
+    if n == 0:
+        raise AnalysisError(f"{JSON}: no guarded read of an old history file found in the rewriting operations")
 
 META = {
     "technique": "static analysis: who-may-write + CFG dominance / failure-edge reachability over history/json.py and history/sqlite.py",
